@@ -37,6 +37,14 @@ type multiClusterTokenReviewAuthenticator struct {
 	caches         sync.Map
 }
 
+// cacheKey binds a token cache to the cluster instance it was created for, so
+// that a result obtained from one cluster is never used for a host which now
+// resolves to another cluster (e.g. a server name moved between clusters).
+type cacheKey struct {
+	host    string
+	cluster *clusters.ClusterInfo
+}
+
 func NewMultiClusterTokenReviewAuthenticator(clientProvider clusters.ClientProvider, tokenSuccessCacheTTL, tokenFailureCacheTTL time.Duration, implicitAuds authenticator.Audiences) authenticator.Token {
 	return &multiClusterTokenReviewAuthenticator{
 		tokenSuccessCacheTTL: tokenSuccessCacheTTL,
@@ -62,19 +70,20 @@ func (a *multiClusterTokenReviewAuthenticator) AuthenticateToken(ctx context.Con
 	var tokenAuth authenticator.Token
 	if a.tokenFailureCacheTTL == 0 && a.tokenSuccessCacheTTL == 0 {
 		// if token cache ttl is 0, call upstream cluster directly
-		tokenAuth = a.authenticateTokenForHost(host)
+		tokenAuth = a.authenticateTokenForHost(host, cluster)
 	} else {
-		// split cache by host
-		cache, loaded := a.caches.Load(host)
+		// split cache by host and cluster
+		key := cacheKey{host: host, cluster: cluster}
+		cache, loaded := a.caches.Load(key)
 		if !loaded {
 			// use token cache, if no cache is hit, authenticateToken() will be called
 			// tokencache use a new context inheriting from context.Background() without all value of req.Context.
-			cache, loaded = a.caches.LoadOrStore(host, tokencache.New(a.authenticateTokenForHost(host), false, a.tokenSuccessCacheTTL, a.tokenFailureCacheTTL))
+			cache, loaded = a.caches.LoadOrStore(key, tokencache.New(a.authenticateTokenForHost(host, cluster), false, a.tokenSuccessCacheTTL, a.tokenFailureCacheTTL))
 			// destry cache when cluster stopped
 			if !loaded {
 				go func() {
 					<-cluster.Context().Done()
-					a.caches.Delete(host)
+					a.caches.Delete(key)
 				}()
 			}
 		}
@@ -84,11 +93,16 @@ func (a *multiClusterTokenReviewAuthenticator) AuthenticateToken(ctx context.Con
 }
 
 // authenticate token by webhook.
-func (a *multiClusterTokenReviewAuthenticator) authenticateTokenForHost(host string) authenticator.TokenFunc {
+func (a *multiClusterTokenReviewAuthenticator) authenticateTokenForHost(host string, cluster *clusters.ClusterInfo) authenticator.TokenFunc {
 	return authenticator.TokenFunc(func(ctx context.Context, token string) (*authenticator.Response, bool, error) {
-		_, client, err := a.clientProvider.ClientFor(host)
+		current, client, err := a.clientProvider.ClientFor(host)
 		if err != nil {
 			return nil, false, err
+		}
+		if current != cluster {
+			// the host has been moved to another cluster, its answer must not be
+			// returned or cached on behalf of this cluster
+			return nil, false, fmt.Errorf("host %q does not belong to cluster %q any more", host, cluster.Cluster)
 		}
 		// err is always nil, can be ignored
 		tokenauth, _ := webhooktoken.NewFromInterface(client.AuthenticationV1().TokenReviews(), a.implicitAuds)
